@@ -49,6 +49,12 @@ func vfGenC12(t *rapid.T) vfCaseC12 {
 		switch m {
 		case "Read", "Write", "ReadFrom":
 			call.N = rapid.SampledFrom(lens).Draw(t, "n")
+		case "WriteTo":
+			// N > 0: the destination accepts N bytes and then fails (seed C12-h) - the offset still has to
+			// account for what was delivered
+			if rapid.Bool().Draw(t, "sinkfails") {
+				call.N = rapid.SampledFrom(lens).Draw(t, "n")
+			}
 		case "ReadAt", "WriteAt":
 			call.N = rapid.SampledFrom(lens).Draw(t, "n")
 			call.Off = int64(rapid.SampledFrom([]int{0, 1, mp, mp + 1, c.FileLen, c.FileLen + 3}).Draw(t, "off"))
@@ -62,6 +68,26 @@ func vfGenC12(t *rapid.T) vfCaseC12 {
 		c.Calls = append(c.Calls, call)
 	}
 	return c
+}
+
+// vfLimitSink accepts left bytes and fails from then on (a full disk, a closed pipe).
+type vfLimitSink struct {
+	bytes.Buffer
+	left      int
+	unlimited bool
+}
+
+var errVfSinkFull = errors.New("vf: destination full")
+
+func (s *vfLimitSink) Write(p []byte) (int, error) {
+	if s.unlimited || len(p) <= s.left {
+		s.left -= len(p)
+		return s.Buffer.Write(p)
+	}
+	n := s.left
+	s.Buffer.Write(p[:n])
+	s.left = 0
+	return n, errVfSinkFull
 }
 
 func vfIsClosedErr(err error) bool { return errors.Is(err, os.ErrClosed) }
@@ -207,7 +233,7 @@ func vfRunC12(ctx *vfCtx, c vfCaseC12) {
 					copy(model[call.Off:], data)
 				}
 			case "WriteTo":
-				var sink bytes.Buffer
+				sink := vfLimitSink{left: call.N, unlimited: call.N == 0}
 				n, err := f.WriteTo(&sink)
 				if closed {
 					expectClosed(err)
@@ -216,6 +242,24 @@ func vfRunC12(ctx *vfCtx, c vfCaseC12) {
 				var want []byte
 				if off < int64(len(model)) {
 					want = model[off:]
+				}
+				if !sink.unlimited && call.N < len(want) {
+					// the destination failed after call.N bytes: the call reports the failure and exactly those
+					// bytes, and the offset has moved past everything delivered - by at most the chunk in hand
+					ctx.Class("writeto-sink-fails")
+					if err == nil || n != int64(call.N) || !bytes.Equal(sink.Bytes(), want[:call.N]) {
+						ctx.Failf(key+"/sink-fails/result", "%s into a destination that fails after %d bytes returned n=%d err=%v and delivered %d bytes", desc, call.N, n, err, sink.Len())
+					}
+					now, serr := f.Seek(0, io.SeekCurrent)
+					lo, hi := off+int64(call.N), off+int64(call.N)+int64(mp)
+					if hi > int64(len(model)) {
+						hi = int64(len(model))
+					}
+					if serr != nil || now < lo || now > hi {
+						ctx.Failf(key+"/sink-fails/offset", "%s into a destination that fails after %d bytes left the offset at %d (err %v), want it in [%d, %d]: start %d plus the bytes delivered, plus at most the chunk in hand", desc, call.N, now, serr, lo, hi, off)
+					}
+					off = now
+					return
 				}
 				if err != nil || n != int64(len(want)) || !bytes.Equal(sink.Bytes(), want) {
 					ctx.Failf(key+"/result", "%s returned n=%d err=%v and %d bytes, want %d bytes from the current offset", desc, n, err, sink.Len(), len(want))
